@@ -282,6 +282,9 @@ func recodable() map[string]bool {
 var needsState = map[string]bool{"types.V2TransactionsMultiproof": true, "types.V2BlockData": true, "types.V2Block": true}
 
 func runC11(r *Run) {
+	for i := 0; i < r.pick(30, 800); i++ {
+		c18Synthetic(r) // V2TransactionsMultiproof needs proofs valid for one state: generated here, round trip + model
+	}
 	rec := recodable()
 	nper := r.pick(60, 2500)
 	nrec := 0
@@ -361,6 +364,9 @@ func runC11(r *Run) {
 // C10 (decode half): hostile bytes never panic and never allocate out of proportion
 func runC10(r *Run) {
 	runLedger(r, "C10") // validation half: structure-aware adversarial blocks on generated chains
+	for i := 0; i < r.pick(30, 800); i++ {
+		c18Synthetic(r) // structure-aware hostile multiproofs (leaf count replaced in valid encodings)
+	}
 	rec := recodable()
 	nper := r.pick(40, 1500)
 	for _, tt := range genAllTypes {
